@@ -2850,7 +2850,9 @@ class DiskObjectStore(PackBasedObjectStore):
             # Generate the commit graph
             from .commit_graph import generate_commit_graph
 
-            graph = generate_commit_graph(self, commit_ids)
+            # reachable=False asks for exactly the given commits, also when
+            # their parents are then not part of the graph
+            graph = generate_commit_graph(self, commit_ids, closed=reachable)
 
             if graph.entries:
                 # Ensure the info directory exists
